@@ -24,7 +24,7 @@
 (***************************************************************************)
 EXTENDS Grammar, Nest
 
-CONSTANTS PKinds, MaxEdits, NCmtCls, NCppForms, NGarb, DirectiveCls, InsSet, MinEdits, DumpMod, NRepl, RichOnly
+CONSTANTS PKinds, MaxEdits, NCmtCls, NCppForms, NGarb, DirectiveCls, InsSet, MinEdits, DumpMod, NRepl, RichOnly, NeedStruct
 
 VARIABLES ed, pd
 pvars == <<out, stack, done, needs08, nlab, nname, nunit, rich, ed, pd>>
@@ -49,9 +49,17 @@ StructKinds == {"del", "ins", "ren", "par"}
 HasStruct == \E j \in 1..Len(ed) : ed[j].t \in StructKinds
 Shifting == \E j \in 1..Len(ed) : ed[j].t \in {"del", "ins"}     \* edits that renumber the statements
 
+\* In the NeedStruct configurations the comment / directive lines go directly in front of the statement that opens
+\* the construct or unit whose END is edited (BlockBase collects them in front of the opening statement before it
+\* compares the END name with it)
+StructPos == ed[CHOOSE j \in 1..Len(ed) : ed[j].t \in StructKinds].pos
+OpenerIdxs(p) == {j \in 1..(p - 1) : out[j].d = out[p].d /\ out[j].k \in NOpeners}
+Anchor == IF NeedStruct /\ HasStruct /\ OpenerIdxs(StructPos) # {}
+          THEN {CHOOSE m \in OpenerIdxs(StructPos) : \A y \in OpenerIdxs(StructPos) : y <= m} ELSE {}
 AddCmt ==
-  /\ "cmt" \in PKinds
-  /\ \E pos \in Ch(1..(N + 1)), place \in {1, 2, 3}, c \in Ch(1..NCmtCls) :
+  /\ "cmt" \in PKinds /\ (NeedStruct => HasStruct)
+  /\ \E pos \in Ch(IF NeedStruct THEN Anchor ELSE 1..(N + 1)), place \in {1, 2, 3}, c \in Ch(1..NCmtCls) :
+       /\ (NeedStruct => place = 1)
        /\ (place \in {2, 3} => pos <= N)
        /\ ~InJoin(pos) /\ ~Shifting
        /\ (place = 3 => Splittable(pos))
@@ -62,9 +70,9 @@ AddCmt ==
        /\ ed' = Append(ed, E("cmt", pos, place, c))
 
 AddCpp ==
-  /\ "cpp" \in PKinds
+  /\ "cpp" \in PKinds /\ (NeedStruct => HasStruct)
   /\ ~Shifting
-  /\ \E pos \in Ch(1..(N + 1)), f \in Ch(1..NCppForms) : ed' = Append(ed, E("cpp", pos, f, 0))
+  /\ \E pos \in Ch(IF NeedStruct THEN Anchor ELSE 1..(N + 1)), f \in Ch(1..NCppForms) : ed' = Append(ed, E("cpp", pos, f, 0))
 
 AddGarb ==
   /\ "garb" \in PKinds /\ ~\E j \in 1..Len(ed) : ed[j].t = "garb"
@@ -198,8 +206,10 @@ LastLine(i) == IF i = 0 THEN 0 ELSE LastLine(i - 1) + PreLines(i) + StmtLines(i)
 GarbPos == IF \E j \in 1..Len(ed) : ed[j].t = "garb" THEN ed[CHOOSE j \in 1..Len(ed) : ed[j].t = "garb"].pos ELSE 0
 
 \* the quick configurations replay a deterministic 1/DumpMod sample of the exhaustive space
+RECURSIVE EdHash(_)
+EdHash(j) == IF j = 0 THEN 0 ELSE (ed[j].pos * 7 + ed[j].a * 3 + ed[j].b * 5 + j * 13 + EdHash(j - 1)) % 1000003
 Selected == \/ DumpMod = 1 \/ ed = <<>>
-            \/ (ed[1].pos * 7 + ed[1].a * 3 + ed[1].b * 5 + Len(ed) + Len(out) * 11 + nname + nlab) % DumpMod = 0
+            \/ (EdHash(Len(ed)) + Len(ed) + Len(out) * 11 + nname + nlab) % DumpMod = 0
 PDump == (pd /\ Selected) => PrintT(<<"BEH", ToJson([out |-> out, needs08 |-> needs08, ed |-> ed,
                                        valid |-> StillValid, edited |-> Edited,
                                        leaves |-> Leaves(1), garbline |-> LastLine(GarbPos)])>>)
